@@ -347,11 +347,10 @@ def cmp_block(prop, ka, kb, base=0):
             lt, lte = "r_or.map(|r| r < %s).unwrap_or(false)" % nb, "r_or.map(|r| r <= %s).unwrap_or(false)" % nb
         elif ta == "OBJ" and tb == "OBJ":
             lt, lte = "false", "true"
-        elif ta == "OBJ":     # "[object Object]" vs t: compare '[' with t's first char; t == "" is smaller; t is never a proper extension
-            lt, lte = ("(tb.n > 0 && ('[' as u32) < (tb.c[0] as u32))", "(tb.n > 0 && ('[' as u32) < (tb.c[0] as u32))")
-        elif tb == "OBJ":     # t vs "[object Object]": t < it iff t == "" or t[0] < '[' or (t[0] == '[' and (n == 1 or t[1] < 'o'))
-            lt = "(ta.n == 0 || (ta.c[0] as u32) < ('[' as u32) || (ta.c[0] == '[' && (ta.n == 1 || (ta.c[1] as u32) < ('o' as u32) || ta.c[1] == 'o')))"
-            lte = lt
+        elif ta == "OBJ":     # "[object Object]" vs t (t <= 2 chars, never equal to it)
+            lt, lte = "txt_cmp_obj(tb) > 0", "txt_cmp_obj(tb) > 0"
+        elif tb == "OBJ":
+            lt, lte = "txt_cmp_obj(ta) < 0", "txt_cmp_obj(ta) < 0"
         else:
             lt, lte = "txt_cmp(%s, %s) < 0" % (ta, tb), "txt_cmp(%s, %s) <= 0" % (ta, tb)
         exp = "(%s, %s)" % (lt, lte)
@@ -532,7 +531,7 @@ def s2n_corpus_harnesses(prop, pfx, msg, group=5, quick_groups=99):
 //@ encodes: js_op::str_to_number::<&str> (real, incl. char trimming, radix prefixes and core dec2flt)
 //@ bound: corpus strings %(doc)s. NOTE: constant-folded symbolic execution of the compiled code on each string (exact evaluation by the engine; no quantifier over strings)
 #[cfg_attr(kani, kani::proof)]
-#[cfg_attr(kani, kani::unwind(40))]
+#[cfg_attr(kani, kani::unwind(80))]
 #[cfg_attr(kani, kani::stub(std::fmt::format, stub_format))]
 #[cfg_attr(verif_replay, test)]
 pub fn %(pfx)s_s2n_corpus_%(i)d() {
